@@ -1,7 +1,7 @@
 (* C08 entry points of the extracted model. *)
 From Coq Require Extraction ExtrOcamlBasic ExtrOcamlString.
 From Coq Require Import List Arith.
-Require Import TT.Model.Str TT.Model.C08Fingerprint TT.Model.C08Run.
+Require Import TT.Model.Str TT.Model.C08Fingerprint TT.Model.C08Run TT.Spec.C08TextSpec.
 
 (* a scripted history from the empty output directory; presence = true is the faithful model (outputs_present in both callers) *)
 Definition c08_trace (p : project) (c : config) (h : list hstep) : list hobs :=
@@ -14,6 +14,9 @@ Definition c08_files_eq (w1 : sched) (p1 : project) (c1 : config) (w2 : sched) (
   && Nat.eqb (length (files w1 p1 c1)) (length (files w2 p2 c2)).
 Definition c08_oracle (r : cresult) (missing different : list fname) : bool := c08_ok r missing different.
 Definition c08_valid_sched := valid_sched.
+(* round 7: the text level against the files of the real tool *)
+Definition c08_text_check := text_check.
+Definition c08_events_check := events_check.
 
 Extraction Language OCaml.
-Extraction "tt_c08.ml" c08_trace c08_fp_eq c08_files_eq c08_oracle c08_valid_sched.
+Extraction "tt_c08.ml" c08_trace c08_fp_eq c08_files_eq c08_oracle c08_valid_sched c08_text_check c08_events_check.
